@@ -7,7 +7,7 @@ def run():
     C.log("tree", tree.hash, "amalgam identical:", tree.regen_identical)
     here = os.path.dirname(os.path.dirname(os.path.abspath(__file__)))
     rc = 0
-    for prop in ("C13", "C20", "C10"):
+    for prop in ("C13", "C20", "C10", "C19"):
         p = subprocess.run([sys.executable, os.path.join(here, "vcheck"), prop, "--tier", "quick"],
                            cwd=here, capture_output=True, text=True, env=dict(os.environ, VERIF_SETUP="1"))
         C.log("warm", prop, "rc", p.returncode)
